@@ -175,6 +175,7 @@ pub(crate) fn repair_snapshots<S: IndexedFull>(
 
     let mut state = RepairState::new(opts, repo.index());
     let modifier = TreeModifier::new(be, repo.index(), config_file, dry_run)?;
+    let mut repaired_snapshots = Vec::new();
 
     for mut snap in snapshots {
         let snap_id = snap.id;
@@ -207,14 +208,22 @@ pub(crate) fn repair_snapshots<S: IndexedFull>(
                 if dry_run {
                     info!("would have modified snapshot {snap_id}.");
                 } else {
-                    let new_id = be.save_file(&snap)?;
-                    info!("saved modified snapshot as {new_id}.");
+                    repaired_snapshots.push(snap);
                 }
                 state.delete.push(snap_id);
             }
         }
     }
+    // Flush the new trees and their index first: a snapshot file must never become visible
+    // before everything it references is stored.
     modifier.finalize()?;
+
+    if !dry_run {
+        for snap in &repaired_snapshots {
+            let new_id = be.save_file(snap)?;
+            info!("saved modified snapshot {} as {new_id}.", snap.id);
+        }
+    }
 
     if opts.delete {
         if dry_run {
